@@ -61,6 +61,22 @@ written comes from -/
 theorem writeFields_agrees :
     ∀ e ∈ Gen.writeFields, ∀ e' ∈ Gen.parseFields, e.1 = e'.1 → e.2 = e'.2 := by decide
 
+/-- the widths of the maximal runs of fixed-width fields of a layout, in order: what has to be
+available before each run is read -/
+def fixedRuns : List FKind → Nat → List Nat
+  | [], acc => if acc = 0 then [] else [acc]
+  | .int w :: ks, acc => fixedRuns ks (acc + w)
+  | _ :: ks, acc => (if acc = 0 then [] else [acc]) ++ fixedRuns ks 0
+
+/-- **the up-front length guards of every `fn parse` are exactly the widths of the runs of
+fixed-width fields it goes on to read** (`*position + 4 > data.len()` before an address,
+`+ 20` before the five integers of SOA, `+ 18` before the fixed part of RRSIG, …): a guard that
+is missing or too small lets a slice run out of the RDATA (a panic), one that is too large
+rejects valid records. The model checks each field separately (`decField`); this ties the
+hand-written combined guards to it. -/
+theorem parseGuards_model :
+    ∀ e ∈ Gen.parseGuards, (schemaOf e.1).map (fixedRuns · 0) = some e.2 := by decide
+
 /-- the tables of fields have a row for exactly the types the tables of kinds have one for -/
 theorem parseFields_keys : Gen.parseFields.map (·.1) = Gen.parseSchema.map (·.1) := by decide
 theorem writeFields_keys : Gen.writeFields.map (·.1) = Gen.writeSchema.map (·.1) := by decide
